@@ -164,9 +164,9 @@ EditsOf(kind) ==
     [] kind = "AttachHeights" -> {[k |-> "AttachHeights", s |-> s] : s \in 1..4}     \* 1: instrument heights, 2: both, 3: small target heights only, 4: small instrument heights only
     [] kind = "MakeFree" -> {[k |-> "MakeFree", s |-> s] : s \in 1..6}
     [] kind = "Isolate" -> {[k |-> "Isolate", s |-> s] : s \in 1..4}      \* 1, 2: sight in the first quadrant (2: with a height difference); 3, 4: second / fourth quadrant
-    [] kind = "InputFeatures" -> {[k |-> "InputFeatures", s |-> s] : s \in 1..6}
+    [] kind = "InputFeatures" -> {[k |-> "InputFeatures", s |-> s] : s \in 1..7}
          \* optional forms of the input language: 1 a <coordinates> cluster with one point observed in x,y only followed by another observed in z only,
-         \* 2 <dh> with dist and stdev, 3 <dh> with dist only, 4 directions with from_dh / to_dh, 5 extern attributes, 6 angles with from_dh / bs_dh / fs_dh
+         \* 2 <dh> with dist and stdev, 3 <dh> with dist only, 4 directions with from_dh / to_dh, 5 extern attributes, 6 angles with from_dh / bs_dh / fs_dh, 7 latitude, ellipsoid, algorithm and cov-band in <parameters>
     [] kind = "Blunder" -> {[k |-> "Blunder", obs |-> i, pct |-> pc, tol |-> tl, sig |-> sg] : i \in 1..8 \cup {LastObs}, pc \in {99, 101, 300}, tl \in {1, 10, 1000}, sg \in {10, 3, 40}}
     [] kind = "ExcludeVsDelete" -> {[k |-> "ExcludeVsDelete", s |-> s] : s \in 1..3}
     [] OTHER -> {}
